@@ -72,6 +72,9 @@ class Level(enum.IntEnum):
 
 Point = collections.namedtuple('Point', ['x', 'y'])
 Empty = collections.namedtuple('Empty', [])
+# field / keyword names that are also parameter names inside the package (ctx, fn, value, args, kwargs, ...)
+Reserved = collections.namedtuple('Reserved', ['ctx', 'fn', 'value', 'args', 'kwargs', 'self'], rename=False)
+RESERVED_NAMES = ['ctx', 'fn', 'value', 'args', 'kwargs', 'cls', 'type', 'predicate', 'doc', 'indent', 'key', 'sep']
 
 
 class MyError(Exception):
@@ -81,7 +84,7 @@ class MyError(Exception):
 NS = {'datetime': datetime, 'collections': collections, 'uuid': uuid, 'types': types, 'functools': functools,
       'pathlib': pathlib, 'time': time, 'pytz': pytz, 'c07': None, 'mappingproxy': types.MappingProxyType,
       'float': float, 'frozenset': frozenset, 'set': set, 'print': print, 'int': int, 'sorted': sorted, 'max': max}
-for _c in (Color, Perm, Level, Point, Empty, MyError, Keep, Wide, Alias, StrictF, StrE, TupE):
+for _c in (Color, Perm, Level, Point, Empty, MyError, Keep, Wide, Alias, StrictF, StrE, TupE, Reserved):
     _c.__module__ = 'c07'
 
 
@@ -90,7 +93,7 @@ class _Mod:
 
 
 _mod = _Mod()
-for _c in (Color, Perm, Level, Point, Empty, MyError, Keep, Wide, Alias, StrictF, StrE, TupE):
+for _c in (Color, Perm, Level, Point, Empty, MyError, Keep, Wide, Alias, StrictF, StrE, TupE, Reserved):
     setattr(_mod, _c.__name__, _c)
 NS['c07'] = _mod
 
@@ -206,12 +209,12 @@ def gen_std(r, depth=0):
     if kind == 'intenum':
         return r.choice(list(Level))
     if kind == 'namespace':
-        return types.SimpleNamespace(**{k: g() for k in r.sample(['b', 'a', 'long_attribute', 'z1'], r.randint(0, 4))})
+        return types.SimpleNamespace(**{k: g() for k in r.sample(['b', 'a', 'long_attribute', 'z1'] + RESERVED_NAMES[:6], r.randint(0, 4))})
     if kind == 'namedtuple':
-        return r.choice([Point(g(), g()), Empty()])
+        return r.choice([Point(g(), g()), Empty(), Reserved(g(), 1, 'v', (), {}, None)])
     if kind == 'partial':
         return functools.partial(r.choice([print, int, sorted, max]), *[gen_leaf(r) for _ in range(r.randint(0, 2))],
-                                 **{k: gen_leaf(r) for k in r.sample(['key', 'sep'], r.randint(0, 2))})
+                                 **{k: gen_leaf(r) for k in r.sample(RESERVED_NAMES, r.randint(0, 3))})
     if kind == 'exception':
         cls = r.choice([ValueError, KeyError, MyError, OSError, Exception])
         return cls(*[g() for _ in range(r.randint(0, 3))])
